@@ -387,6 +387,9 @@ def identity_check(gen):
         if conds:
             # the wrapper condition was denormalised too (it may contain nothing to denormalise)
             back = X.invert_n2(back, conds)
+        n6 = [x for x in it["rules_applied"] if x.get("rule") == "N6"]
+        if n6:
+            back = X.invert_n6(back, n6)
         n5 = [x for x in it["rules_applied"] if x.get("rule") == "N5"]
         if n5:
             back = X.invert_n5(back, n5)
